@@ -672,7 +672,16 @@ class HL:
                 if self.ndiverge > 3:
                     cpu = 250
             lines.append("%s %s %d %d" % ("fprobe", hx(s), LIMIT, cpu) if fork else "probe %s %d" % (hx(s), LIMIT))
-        return self.impl(lines), m
+        out = self.impl(lines)
+        # a timeout / memory ceiling ALONE (nothing predicts it) is tried once more, in a forked probe of its own with
+        # three times the CPU ceiling: on a loaded machine the CPU clock of a sanitized process runs fast
+        again = [i for i, (a, b) in enumerate(zip(out, m)) if a in ("timeout", "oom") and b != "diverge"][:12]
+        if again:
+            self.nretried = getattr(self, "nretried", 0) + len(again)
+            second = self.impl(["fprobe %s %d %d" % (hx(strings[i]), LIMIT, 6000) for i in again])
+            for i, a in zip(again, second):
+                out[i] = a
+        return out, m
 
 
 # ------------------------------------------------------------------ CLI
@@ -684,8 +693,10 @@ class Cli:
         self.cwd = os.path.join(ctx.scratch, "clicwd")
         os.makedirs(self.cwd, exist_ok=True)
 
-    def run(self, args, timeout=20):
+    def run(self, args, timeout=20, env_extra=None):
         env = {"PATH": "/usr/bin:/bin", "HOME": self.cwd, "LC_ALL": "C"}
+        if env_extra:
+            env.update(env_extra)
         try:
             p = subprocess.run([self.pdsh] + args, stdout=subprocess.PIPE, stderr=subprocess.PIPE, cwd=self.cwd,
                                env=env, timeout=timeout, stdin=subprocess.DEVNULL)
@@ -707,9 +718,24 @@ class Cli:
             return "nohosts"
         return "rc%d" % rc
 
+    def linebuf(self):
+        """LINEBUFSIZE of the tree under test (fgets piece size of wcoll.c); 2048 when it can not be read"""
+        try:
+            m = re.search(r"#\s*define\s+LINEBUFSIZE\s+(\d+)", open(os.path.join(self.repo, "src/common/macros.h")).read())
+            return int(m.group(1)) if m else 2048
+        except OSError:
+            return 2048
+
     def query(self, expr, timeout=20):
         """pdsh -Q -w EXPR -> (class, [hosts]|None, truncated)"""
-        rc, out, err = self.run(["-Q", "-w", expr], timeout=timeout)
+        return self.query_args(["-w", expr], timeout=timeout)
+
+    def query_args(self, args, timeout=20, env_extra=None):
+        """pdsh -Q ARGS.. -> (class, [hosts]|None, truncated); a timeout alone is tried once more"""
+        for attempt in (0, 1):
+            rc, out, err = self.run(["-Q"] + list(args), timeout=timeout, env_extra=env_extra)
+            if rc != "timeout":
+                break
         if rc != 0:
             return self.diag(rc, err), None, False
         lines = out.split(b"\n")
@@ -727,7 +753,15 @@ class Cli:
 
     def contact(self, expr):
         """pdsh -R exec -f 1 -w EXPR echo %h -> (class, [hosts in contact order])"""
-        rc, out, err = self.run(["-R", "exec", "-f", "1", "-N", "-w", expr, "echo", "%h"], timeout=60)
+        return self.contact_args(["-w", expr])
+
+    def contact_args(self, args, env_extra=None):
+        """pdsh -R exec -f 1 -N ARGS.. echo %h -> (class, [hosts in contact order]); a timeout alone is tried once more"""
+        for attempt in (0, 1):
+            rc, out, err = self.run(["-R", "exec", "-f", "1", "-N"] + list(args) + ["echo", "%h"], timeout=60,
+                                    env_extra=env_extra)
+            if rc != "timeout":
+                break
         if rc != 0:
             return self.diag(rc, err), None
         return "ok", [l for l in out.split(b"\n") if l]
